@@ -47,6 +47,9 @@ def build(desc, side, ctx=None):
             b.srcs.append(b.srcs[s["alias"]])  # the very same object once more
             continue
         items = mats(s["items"])
+        if tool.name == "any_iter" and s.get("fl") in ("iter_awaitable", "aclass_awaitable"):
+            # (resolving an awaitable argument is what any_iter is FOR: there the plain flavour stands in)
+            s = dict(s, fl="iter" if s["fl"] == "iter_awaitable" else "aclass")
         if tool.callsrc:
             src = CallSource(ctx, f"s{i}", items, s, side, mat(s["tail"]))
         else:
